@@ -168,6 +168,7 @@ class Ctx:
         s.add(z3.Not(claim) if claim is not False else z3.BoolVal(True))
         r = s.check()
         self.cov['solver_s'] += time.time() - t
+        self._cross_check(s, r)
         if r == z3.unsat:
             self.cov['queries']['unsat'] += 1
             return True, None
@@ -176,6 +177,27 @@ class Ctx:
             return False, s.model()
         self.cov['queries']['unknown'] += 1
         raise Inconclusive('solver returned unknown')
+
+    def _cross_check(self, solver, verdict):
+        """second opinion on a sample of the property queries: the same SMT-LIB text is given to cvc5 (every query in the
+        thorough tier up to a cap, every 40th in the quick tier); a disagreement between the two solvers is inconclusive"""
+        self._nq = getattr(self, '_nq', 0) + 1
+        every = 1 if self.tier == 'thorough' else 40
+        done = self.cov['sub_checks'].get('queries_cross_checked_with_cvc5', 0)
+        if self._nq % every or done >= (400 if self.tier == 'thorough' else 25) or verdict == z3.unknown:
+            return
+        try:
+            txt = '(set-logic ALL)\n' + solver.to_smt2()
+            p = subprocess.run(['cvc5', '--lang', 'smt2', '--tlimit=20000'], input=txt, text=True, stdout=subprocess.PIPE, stderr=subprocess.PIPE, timeout=40)
+        except (OSError, subprocess.TimeoutExpired):
+            return
+        out = p.stdout.strip().split('\n')[0] if p.stdout.strip() else ''
+        if '(error' in p.stdout or '(error' in p.stderr or out not in ('sat', 'unsat'):
+            self.cov['sub_checks']['cvc5_no_answer'] = self.cov['sub_checks'].get('cvc5_no_answer', 0) + 1
+            return
+        self.cov['sub_checks']['queries_cross_checked_with_cvc5'] = done + 1
+        if out != str(verdict):
+            raise Inconclusive('z3 says %s, cvc5 says %s on the same query' % (verdict, out))
 
     def model_of(self, pc, extra=()):
         s = z3.Solver()
@@ -186,6 +208,7 @@ class Ctx:
         for c in extra:
             s.add(c)
         r = s.check()
+        self._cross_check(s, r)
         if r != z3.sat:
             return None
         return s.model()
